@@ -90,8 +90,8 @@ Proof.
   destruct ps as [[ty a] [uty ua] sub sub2]; cbn [seg_es seg_us seg_sub] in *.
   destruct (_ && _ && _) eqn:Erec; [split; [intros _; apply sres_gerr_ype | exact I]|].
   destruct (unwrap_ctx v0 c0) as [v c] eqn:Eu. pose proof (unwrap_size _ _ _ _ Eu) as Hsz.
-  unfold seg_ok_kw in Hok. apply andb_prop in Hok. destruct Hok as [Hok Hkw].
-  unfold seg_ok in Hok; cbn [fst snd] in Hok, Hkw. apply andb_prop in Hok. destruct Hok as [Hty Hnc].
+  unfold seg_ok_kw in Hok.
+  unfold seg_ok in Hok; cbn [fst snd] in Hok. apply andb_prop in Hok. destruct Hok as [Hty Hnc].
   destruct ty as [[]|]; try discriminate.
   - (* anchor *) split; [intros _; apply by_anchor_res | apply by_anchor_pure].
   - (* index *) split; [intros _; apply by_index_res | apply by_index_pure].
